@@ -9,7 +9,8 @@ wt=$(mktemp -d /tmp/seeded-wt-XXXXXX)
 rmdir "$wt"
 git -C /repo worktree add -f "$wt" ${SEEDED_BASE:-HEAD} >/dev/null 2>&1
 trap 'git -C /repo worktree remove --force "$wt" >/dev/null 2>&1 || rm -rf "$wt"' EXIT
-git -C "$wt" apply "$patch"
+# (a patch written against an older HEAD: fall back to a three-way merge)
+git -C "$wt" apply "$patch" 2>/dev/null || git -C "$wt" apply --3way "$patch"
 cd "$(dirname "$0")/.."
 set +e
 BFGSIM_REPO="$wt" BFGSIM_BUDGET_S=$budget ./check "$prop" --tier quick
